@@ -401,6 +401,8 @@ type world struct {
 
 	infra string
 	viol  []violation
+
+	wantDump bool // take the canonical machine dumps at the end of the replay
 }
 
 type violation struct {
@@ -495,8 +497,10 @@ func (s *smProxy) ProcessStart(r types.Round) []starknet.Action {
 		// the first ProcessStart issued by the driver itself (not through ProcessWAL) ends the replay
 		s.p.replayDone = true
 		s.p.firstStart = s.machine.Height()
-		s.p.dumpAfterRplay = dumpMachine(s.machine)
-		s.p.coreAfterRplay = dumpCore(s.machine)
+		if s.p.w.wantDump {
+			s.p.dumpAfterRplay = dumpMachine(s.machine)
+			s.p.coreAfterRplay = dumpCore(s.machine)
+		}
 	}
 	s.sync()
 	return s.machine.ProcessStart(r)
